@@ -148,7 +148,9 @@ pub fn decode(src: &mut Source) -> Box<dyn Case> {
             let fnorm: Vec<char> = tokenize_record(&f, &l).chars;
             let ax8: Vec<char> = ax.iter().cloned().filter(|c| !fnorm.contains(c) && !f.contains(*c)).collect();
             let x8 = if ax8.len() >= 3 { content_word(src, &l, &ax8, 3, 9, &mut redraws) } else { None };
-            if is_func(&l, &f) && tokenize_record(&f, &l).words.len() == 1 && !is_func(&l, &cw) {
+            // f is a function word because the pinned table of the language says so - the library is
+            // NOT asked (a library that forgets one must be caught, not excused)
+            if tokenize_record(&f, &l).words.len() == 1 && !is_func(&l, &cw) {
                 let r = ratings(src);
                 push("R8 f+suffix>f", cw.clone(), f.clone(), f.clone(), r);
                 if let Some(x8) = x8 {
@@ -157,6 +159,36 @@ pub fn decode(src: &mut Source) -> Box<dyn Case> {
                 }
             } else {
                 redraws += 1;
+            }
+        }
+    }
+    // ranking must not depend on how the titles are capitalised (search is case-insensitive):
+    // re-case title words in a third of the cases
+    if src.chance(1, 3) {
+        for i in insts.iter_mut() {
+            let style = src.below(3);
+            let mut recase = |t: &str| -> String {
+                t.split(' ')
+                    .map(|w| match style {
+                        0 => {
+                            let mut cs = w.chars();
+                            match cs.next() {
+                                Some(c) => c.to_uppercase().chain(cs).collect::<String>(),
+                                None => String::new(),
+                            }
+                        }
+                        1 => w.to_uppercase(),
+                        _ => w.to_string(),
+                    })
+                    .collect::<Vec<_>>()
+                    .join(" ")
+            };
+            // only letters whose upper-case form lower-cases back to the same text keep the word intact
+            let a2 = recase(&i.a);
+            let b2 = recase(&i.b);
+            if a2.to_lowercase() == i.a.to_lowercase() && b2.to_lowercase() == i.b.to_lowercase() {
+                i.a = a2;
+                i.b = b2;
             }
         }
     }
@@ -194,6 +226,7 @@ impl Case for C08Case {
             }
             ctx.label(match i.rule.as_bytes()[1] { b'1' => "R1", b'2' => "R2", b'3' => "R3", b'4' => "R4", b'5' => "R5", b'6' => "R6", b'7' => "R7", _ => "R8" });
             ctx.label_if(i.rb > i.ra, "loser-has-higher-rating");
+            ctx.label_if(i.a.chars().any(|c| c.is_uppercase()), "recased-titles");
         }
         ctx.count("redraws", self.redraws as u64);
         ctx.label_if(self.insts.is_empty(), "skipped-no-content-words");
@@ -207,7 +240,7 @@ pub fn def() -> PropDef {
         title: "Documented ranking priorities hold regardless of rating",
         rule: "per case: a language, words u, v (5-9 letters) and filler x (3-9) over three mutually disjoint letter sets of the language's script, each confirmed a non-function word with the public tokeniser (bounded re-draws, counted); 10-13 two-record rule instances (R1 exact>typo, R2 both>one x4, R3 word>word+suffix for the word and a typed prefix, R4, R5, R6, R7, R8 x2 with a function word from the pinned list of the language) with ratings uniform in [0,2^31), the title that should lose getting the larger rating in ~3/4 of the instances, both insertion orders. Non-trivial = the losing title has the strictly larger rating (R6/R7: ratings distinct/equal as stated); distinct = distinct case",
         assumptions: &["function words are the single-token entries of the language tables at the pinned commit (harness/src/tables.rs)", "'A outranks B' = A is a hit and precedes B if B is one"],
-        spaces: vec![Space { name: "rules", decode, plan: |t| Plan::Random(t.n(40_000, 1_200_000)) }],
+        spaces: vec![Space { name: "rules", decode, plan: |t| Plan::Random(t.n(100_000, 2_000_000)) }],
         differential: false,
     }
 }
